@@ -6,7 +6,7 @@ use std::{fmt, mem};
 use tokio::sync::oneshot;
 use tracing::warn;
 
-use crate::bucket::segment::{CommittedEvents, SegmentIter};
+use crate::bucket::segment::{CommittedEvents, EventRecord, SegmentIter};
 use crate::bucket::{BucketId, BucketSegmentId, PartitionId, SegmentId};
 use crate::error::{PartitionIndexError, ReadError, StreamIndexError};
 use crate::reader_thread_pool::{ReaderSet, ReaderThreadPool};
@@ -47,6 +47,9 @@ pub trait IterConfig: Clone + Send + 'static {
 
     /// Extract the last position from a commit (sequence for partition, version for stream)
     fn extract_last_position(&self, commit: &CommittedEvents) -> Option<u64>;
+
+    /// Position of one event (sequence for partition, version for stream)
+    fn position(&self, event: &EventRecord) -> u64;
 }
 
 /// Configuration for partition iteration
@@ -141,6 +144,10 @@ impl IterConfig for PartitionIterConfig {
 
     fn extract_last_position(&self, commit: &CommittedEvents) -> Option<u64> {
         commit.last_partition_sequence()
+    }
+
+    fn position(&self, event: &EventRecord) -> u64 {
+        event.partition_sequence
     }
 }
 
@@ -246,6 +253,10 @@ impl IterConfig for StreamIterConfig {
     fn extract_last_position(&self, commit: &CommittedEvents) -> Option<u64> {
         commit.last_stream_version()
     }
+
+    fn position(&self, event: &EventRecord) -> u64 {
+        event.stream_version
+    }
 }
 
 /// Generic iterator over buckets that can be configured for either
@@ -256,6 +267,9 @@ pub struct BucketIter<C: IterConfig> {
     segment_iter: Option<SegmentIter>,
     live_indexes: Arc<HashMap<BucketId, (Arc<AtomicU32>, LiveIndexes)>>,
     last_position: u64,
+    /// Reverse scans: nothing after this position is returned (a transaction is read forward
+    /// from the requested event, which would otherwise drag in its later events).
+    upper_bound: u64,
     is_live: bool,
     has_next_segment: bool,
     dir: IterDirection,
@@ -329,6 +343,7 @@ impl<C: IterConfig> BucketIter<C> {
                     segment_iter: Some(segment_iter),
                     live_indexes,
                     last_position: from_position,
+                    upper_bound: from_position,
                     is_live: true,
                     has_next_segment,
                     dir,
@@ -343,6 +358,7 @@ impl<C: IterConfig> BucketIter<C> {
                 segment_iter: None,
                 live_indexes,
                 last_position: from_position,
+                upper_bound: from_position,
                 is_live: false,
                 has_next_segment: false,
                 dir,
@@ -437,6 +453,7 @@ impl<C: IterConfig> BucketIter<C> {
                     segment_iter,
                     live_indexes,
                     last_position: from_position,
+                    upper_bound: from_position,
                     is_live: false,
                     has_next_segment,
                     dir,
@@ -462,6 +479,7 @@ impl<C: IterConfig> BucketIter<C> {
                             segment_iter: Some(segment_iter),
                             live_indexes,
                             last_position: from_position,
+                            upper_bound: from_position,
                             is_live: true,
                             has_next_segment: false,
                             dir,
@@ -475,6 +493,7 @@ impl<C: IterConfig> BucketIter<C> {
                     segment_iter: None,
                     live_indexes,
                     last_position: from_position,
+                    upper_bound: from_position,
                     is_live: false,
                     has_next_segment: false,
                     dir,
@@ -525,9 +544,23 @@ impl<C: IterConfig> BucketIter<C> {
                         .unwrap_or(self.last_position);
 
                     // Apply filtering
+                    let reverse = matches!(self.dir, IterDirection::Reverse);
+                    let upper_bound = self.upper_bound;
+                    let config = &self.config;
                     let commits: Vec<_> = commits
                         .into_iter()
-                        .filter_map(|commit| self.config.filter_commit(commit))
+                        .filter_map(|commit| config.filter_commit(commit))
+                        .filter_map(|commit| match commit {
+                            commit if !reverse => Some(commit),
+                            CommittedEvents::Transaction { mut events, commit } => {
+                                events.retain(|event| config.position(event) <= upper_bound);
+                                (!events.is_empty())
+                                    .then_some(CommittedEvents::Transaction { events, commit })
+                            }
+                            CommittedEvents::Single(event) => (config.position(&event)
+                                <= upper_bound)
+                                .then_some(CommittedEvents::Single(event)),
+                        })
                         .collect();
 
                     if commits.is_empty() {
